@@ -4,6 +4,7 @@ import AiutiVerif.Batcher.NoDup
 import AiutiVerif.Batcher.Cancel
 import AiutiVerif.Batcher.Answer
 import AiutiVerif.Batcher.Window
+import AiutiVerif.Batcher.Stable
 /-!
 # Batcher property theorems (C04, C09, C10, C11)
 
@@ -438,6 +439,57 @@ theorem C11_remembered_throughout_window (s0 : St) (hf : Fresh4 s0) (ins : List 
   refine ⟨c, a, d, ?_⟩
   intro t ht
   exact (answered_stays_until_timer fuelDefault t _ hR hT k g _ hm b ht).1
+
+/-! ## C04 / C11 — an answer is final   (`Batcher/Stable.lean`) -/
+
+/-- **A future is answered once.**  In every run from a fresh batcher, a future that has the answer `o`
+after some prefix of the inputs has the answer `o` after every longer prefix and after the drain: nothing
+the machine does later - other batches, failing batches fanning their error out, repeated or unknown keys,
+cancellations - touches it.  (`resolve` is only ever applied to futures without an answer: `R`, `RB`.) -/
+theorem C04_answer_is_final (s0 : St) (hf : Fresh2 s0) (ins more : List In) (g : Nat) (o : Outcome)
+    (h : futState (ins.foldl applyIn s0) g = some o) :
+    futState ((ins ++ more).foldl applyIn s0) g = some o ∧ futState (runProgram s0 (ins ++ more)) g = some o := by
+  have hq := foldl_applyIn_Rq ins s0 (Rq_fresh s0 hf)
+  have h1 : futState ((ins ++ more).foldl applyIn s0) g = some o := by
+    rw [List.foldl_append]
+    exact foldl_applyIn_Stays more _ hq g o h
+  refine ⟨h1, ?_⟩
+  unfold runProgram
+  exact advance_Stays _ _ _ _ (foldl_applyIn_Rq (ins ++ more) s0 (Rq_fresh s0 hf)) g o h1
+
+theorem find_of_nodup_mem {l : List (Nat × Nat)} (hn : (l.map (·.1)).Nodup) {k g : Nat} (hm : (k, g) ∈ l) :
+    l.find? (·.1 == k) = some (k, g) := by
+  cases hf : l.find? (·.1 == k) with
+  | none =>
+    have := List.find?_eq_none.mp hf (k, g) hm
+    simp at this
+  | some p =>
+    obtain ⟨k', g'⟩ := p
+    have hk : k' = k := by simpa using List.find?_some hf
+    subst hk
+    have hm' : (k', g') ∈ l := List.mem_of_find?_eq_some hf
+    rw [nodup_keys_unique hn hm' hm]
+
+/-- **A sharer inside the window receives the original's outcome.**  At any instant of any run let key `k`
+be remembered with a future `g` whose answer is `o` (what the original caller was woken with:
+`C04_answer_is_final`).  It was answered at some `c`, and a call for `k` arriving at any
+`t ≤ c + retention_timeout` is answered at once with `o` - it is not queued, no future is created, no batch
+changes (`C11_shared_adds_no_work`). -/
+theorem C11_sharer_receives_the_original_outcome (s0 : St) (hf : Fresh4 s0) (ins : List In) (k g : Nat) (o : Outcome)
+    (hm : (k, g) ∈ (ins.foldl applyIn s0).retention) (hd : futState (ins.foldl applyIn s0) g = some o) :
+    ∃ c, (g, k, c) ∈ (ins.foldl applyIn s0).doneAt ∧
+      ∀ t cid arg, t ≤ c + (ins.foldl applyIn s0).ret →
+        (applyIn (ins.foldl applyIn s0) (.call t cid arg k)).outs =
+          (arrive (ins.foldl applyIn s0) t).outs ++ [Out.done (arrive (ins.foldl applyIn s0) t).now cid o] := by
+  have hR := foldl_applyIn_Rq ins s0 (Rq_fresh s0 hf.1.1)
+  obtain ⟨c, a, _, hw⟩ := C11_remembered_throughout_window s0 hf ins k g hm (by rw [hd]; simp)
+  refine ⟨c, a, ?_⟩
+  intro t cid arg ht
+  have hmem := hw t ht
+  have hRa := arrive_Rq _ t hR
+  have hfind := find_of_nodup_mem hRa.1.retNodup hmem
+  have hst := arrive_Stays _ t hR g o hd
+  simp only [applyIn, In.time, hfind, hst]
 
 /-- non-vacuity: key 7 asked at 0, answered at 15 (`batch_timeout` 10 + 5 per item), `retention_timeout`
 100: at t = 50 it is remembered with its answer, recorded as answered at 15, timer at 115; at t = 500
